@@ -127,6 +127,28 @@ impl ResumableSession {
     }
 }
 
+/// Verification hooks (feature `verif`): build / inspect a record from outside the crate
+/// (`CaseResumptionId` lives in a crate-private module).
+#[cfg(feature = "verif")]
+impl ResumableSession {
+    pub fn verif_new(fab_idx: NonZeroU8, peer_nodeid: u64, rid: [u8; 16]) -> Self {
+        let mut resumption_id = CaseResumptionId::new();
+        resumption_id.load_from_array(&rid);
+
+        Self {
+            fab_idx,
+            peer_nodeid,
+            peer_cat_ids: NocCatIds::default(),
+            resumption_id,
+            shared_secret: CanonPkcSharedSecret::new(),
+        }
+    }
+
+    pub fn verif_rid(&self) -> [u8; 16] {
+        *self.resumption_id.reference().access()
+    }
+}
+
 /// Bounded LRU cache of [`ResumableSession`] records, persisted as a
 /// single TLV blob under [`CASE_RESUMPTION_KEY`].
 ///
